@@ -135,3 +135,38 @@ def _replay(model, contract):
 
 for _c in CONTRACTS.values():
     _c["replay_hook"] = _replay
+
+
+# ---- Characteristic structure (C07): the compartments a characteristic stands for (used to build the initialization equations) are its own
+# compartments plus, recursively, those of the characteristics it includes, in order; making a characteristic dynamic makes every member
+# and the denominator dynamic (their per-step values are needed in the same step); add_include / add_denom record what they are given
+def _env_charac(it):
+    from pyvc.interp import PyObjV
+    from pyvc import source
+
+    mm = source.load("model")
+    comp = lambda n: PyObjV("Compartment", mm, {"id": ("pop", n), "DYN": []})
+    a, b, c, d = comp("a"), comp("b"), comp("c"), comp("d")
+    inner = PyObjV("Characteristic", mm, {"id": ("pop", "inner"), "includes": [b, c], "denominator": None, "_is_dynamic": False, "DYN": []})
+    outer = PyObjV("Characteristic", mm, {"id": ("pop", "outer"), "includes": [a, inner], "denominator": d, "_is_dynamic": False, "units": "Number of people"})
+    return {"self": outer, "A": a, "B": b, "C": c, "D": d, "INNER": inner, "x": PyObjV("Compartment", mm, {"id": ("pop", "new")})}
+
+
+def _mark_dynamic(it, *a, **k):
+    it.stub_receiver.fields["DYN"].append(True)
+
+
+CONTRACTS["model:Characteristic.get_included_comps"] = dict(
+    schema=schema, make_env=_env_charac, class_module="model",
+    ensures=[("C07.a_characteristic_stands_for_its_compartments_and_those_of_the_characteristics_it_includes", "len(result) == 3 and result[0] is A and result[1] is B and result[2] is C")],
+    defined_props=["C07"])
+CONTRACTS["model:Characteristic.set_dynamic"] = dict(
+    schema=schema, make_env=_env_charac, class_module="model", call_stubs={"inc.set_dynamic": _mark_dynamic, "self.denominator.set_dynamic": _mark_dynamic},
+    ensures=[("C07.members_and_denominator_of_a_dynamic_characteristic_are_dynamic", "self._is_dynamic == True and A.DYN == [True] and INNER.DYN == [True] and D.DYN == [True]")],
+    defined_props=["C07"])
+CONTRACTS["model:Characteristic.add_include"] = dict(
+    schema=schema, make_env=_env_charac, class_module="model",
+    ensures=[("C07.the_new_member_is_appended", "len(self.includes) == 3 and self.includes[2] is x and self.includes[0] is A and self.includes[1] is INNER")], defined_props=["C07"])
+CONTRACTS["model:Characteristic.add_denom"] = dict(
+    schema=schema, make_env=_env_charac, class_module="model",
+    ensures=[("C07.the_denominator_is_recorded_and_the_characteristic_becomes_dimensionless", "self.denominator is x and self.units == ''")], defined_props=["C07"])
